@@ -45,6 +45,8 @@ var c13OptExprs = []string{
 	`{unit:0}`, `{unit:-1}`, `{depth:-1}`, `{depth:1e18}`, `{array_truncate:-1}`, `{string_truncate:-1}`, `{width:-1}`, `{width:0}`,
 	`{addrbase:1}`, `{addrbase:0}`, `{addrbase:-2}`, `{addrbase:99}`, `{sizebase:0}`, `{sizebase:1}`, `{sizebase:37}`,
 	`{force:"x"}`, `{seq:1}`, `{array:"x"}`, `{attribute_prefix:""}`, `{skip_gaps:1}`, `{encoding:"nope"}`, `{encoding:1}`, `{multi_document:"x"}`,
+	`{bits_format:"snippet", sizebase:1}`, `{bits_format:"snippet", sizebase:37}`, `{bits_format:"snippet", sizebase:-1, addrbase:99}`, `{bits_format:"truncate", sizebase:0, line_bytes:-1}`,
+	`{bits_format:"md5", display_bytes:-1, depth:-1}`, `{bits_format:"base64", addrbase:1, width:-1}`, `{bits_format:"byte_array", array_truncate:-1, string_truncate:-1}`,
 	`{color:true, colors: {}}`, `{colors: 1}`, `{byte_colors: [{ranges:[[5,1]], value:"x"}]}`, `{byte_colors: 1}`, `{unicode:"x"}`, `{verbose:1}`,
 	`{keep_range:1, unit:3, pad_to_units:-1}`, `{unit:0, keep_range:false, pad_to_units:0}`, `{unit:8, keep_range:true, pad_to_units:-5}`, `{unit:-8, keep_range:false, pad_to_units:1e18}`, `{flags:"x"}`, `{max_array_size:-1}`,
 }
